@@ -1,4 +1,5 @@
 import RsslVerif.Lemmas.ConstEvalNoPanic
+import RsslVerif.Gen.EvalSites
 /-!
 # C13 — compile-time constant evaluation matches run-time semantics
 
@@ -112,5 +113,55 @@ theorem literal_neg_exact (x : Int) (hx : fitsLit x = true) (r : Constant)
 /-- non-vacuity of `literal_exact`: `2^63 * 2^63` is evaluated exactly; `2^64 * 2^64` is refused -/
 example : applyOp .Multiply [.intLit (2 ^ 63), .intLit (2 ^ 63)] = .ok (.intLit (2 ^ 126)) := by decide
 example : applyOp .Multiply [.intLit (2 ^ 64), .intLit (2 ^ 64)] = .error .notConst := by decide
+
+/-! ## the positions that demand a constant -/
+
+/-- The reviewed inventory of every call of `evaluate_constexpr` outside `evaluator.rs`
+    (file, function, expression argument, module argument, origin of the expression, reassigned before the call).
+    Each call passes the IR the type checker built for the source expression and the module being built:
+
+    * `parse_declarator` — array sizes (harness position `array`)
+    * `parse_rootdefinition_enum` — enum values; the one site that rewrites the expression first: an enum-typed
+      initialiser receives the implicit conversion to its underlying type (`enum`, `enumnext`)
+    * `parse_expr_unaryop` — folding of a unary operator on a literal; the expression is the `IntrinsicOp` node just
+      built (covered by every `C13.eval` case that came through the type checker)
+    * `parse_assert_eval` (twice) — both operands of `assert_eval` (`assert`)
+    * `parse_rootdefinition_globalvariable`, `parse_vardef` — initialisers of `const` globals / locals (`constint`,
+      `constuint`, `localconst`)
+    * `parse_expr_as_u32` — `[[rssl::bind_group(n)]]` (`bindgroup`)
+    * `add_stage` — `numthreads` arguments (`numthreads`); `extract_uint32`, `extract_float` — pipeline
+      properties (`pipelineprop`; float properties are not exercised)
+    * `parse_statement` — case labels (`case`); `parse_statement_attribute` — `[unroll(n)]` (`unroll`)
+    * `parse_and_evaluate_constant_expression` — template value arguments and their defaults (`template`) -/
+def reviewedSites : List (String × String × String × String × String × Bool) := [
+  ("typer/src/typer/declarations.rs", "parse_declarator", "&expr_ir", "&mut context.module", "parse_expr", false),
+  ("typer/src/typer/enums.rs", "parse_rootdefinition_enum", "&expr_ir.0", "&mut context.module", "parse_expr", true),
+  ("typer/src/typer/expressions.rs", "parse_expr_unaryop", "&expr_with_op", "&mut context.module", "ir::Expression::IntrinsicOp", false),
+  ("typer/src/typer/expressions.rs", "parse_assert_eval", "&left_expr_ir", "&mut context.module", "parse_expr_internal", false),
+  ("typer/src/typer/expressions.rs", "parse_assert_eval", "&right_expr_ir", "&mut context.module", "parse_expr_internal", false),
+  ("typer/src/typer/globals.rs", "parse_rootdefinition_globalvariable", "expr", "&mut context.module", "initializer-expression", false),
+  ("typer/src/typer/globals.rs", "parse_expr_as_u32", "&expr_ir", "&mut context.module", "parse_expr", false),
+  ("typer/src/typer/pipelines.rs", "add_stage", "expr", "&mut context.module", "closure-parameter", false),
+  ("typer/src/typer/pipelines.rs", "extract_uint32", "&value_expr.0", "&mut context.module", "parse_expr", false),
+  ("typer/src/typer/pipelines.rs", "extract_float", "&value_expr.0", "&mut context.module", "parse_expr", false),
+  ("typer/src/typer/statements.rs", "parse_statement", "&value_expr.0", "&mut context.module", "parse_expr", false),
+  ("typer/src/typer/statements.rs", "parse_statement_attribute", "&expr", "&mut context.module", "parse_expr", false),
+  ("typer/src/typer/statements.rs", "parse_vardef", "expr", "&mut context.module", "initializer-expression", false),
+  ("typer/src/typer/types.rs", "parse_and_evaluate_constant_expression", "&ir_expr.0", "&mut context.module", "parse_expr", false)]
+
+/-- **Positions use the evaluator unchanged** (tie to the source, not a model of the type checker): the calls
+    of `evaluate_constexpr` found in the workspace are exactly the reviewed ones; every one hands over a type
+    checker result (`parse_expr*`, an initialiser expression, the folded operator node) together with
+    `context.module`, and only the enum-value site rewrites the expression before the call. A new call site, a
+    site that starts to pre-process its expression, or a removed site makes this obligation fail until reviewed.
+    What each site does with the *result* (`to_uint64`, range checks, storing it) is checked by the
+    correspondence run (`C13.pos`), not here. -/
+theorem positions_use_eval :
+    (RsslVerif.Gen.EvalSites.evalSites.all fun s => reviewedSites.contains s) = true ∧
+    (reviewedSites.all fun s => RsslVerif.Gen.EvalSites.evalSites.contains s) = true ∧
+    (RsslVerif.Gen.EvalSites.evalSites.all fun s => s.2.2.2.1 == "&mut context.module") = true ∧
+    (RsslVerif.Gen.EvalSites.evalSites.filter fun s => s.2.2.2.2.2).map (fun s => s.2.1)
+      = ["parse_rootdefinition_enum"] := by
+  decide
 
 end RsslVerif.Thm.C13
